@@ -26,8 +26,20 @@ void free_const(const void *);
 void *xmalloc(size_t);
 
 #ifdef M_NAMEUNPACK
+#ifdef M_DEPTH0_REAL
+int rfc1035NameUnpack_real(const char *buf, size_t sz, unsigned int *off, unsigned short *rdlength, char *name, size_t ns, int rdepth);
+#endif
 int rfc1035NameUnpack(const char *buf, size_t sz, unsigned int *off, unsigned short *rdlength, char *name, size_t ns, int rdepth)
 {
+#ifdef M_DEPTH0_REAL
+    /* round-trip targets: the outermost call (rdepth 0, from QueryUnpack/RRUnpack) runs the REAL body.  The packers of this file
+     * emit no compression pointers, so the recursive call behind a pointer must be unreachable there: that is ASSERTED (a
+     * failure is a reported violation), after which the path is cut. */
+    if (rdepth == 0)
+        return rfc1035NameUnpack_real(buf, sz, off, rdlength, name, ns, rdepth);
+    __CPROVER_assert(0, "ensures: decoding a name packed by rfc1035NamePack follows no compression pointer");
+    __CPROVER_assume(0);
+#endif
     /* requires: checked at every call site */
     __CPROVER_assert(1 <= sz && sz <= N && __CPROVER_r_ok(buf, sz), "NameUnpack requires: 1 <= sz <= N and buf[0,sz) readable");
     __CPROVER_assert(__CPROVER_rw_ok(off, sizeof(unsigned int)), "NameUnpack requires: off valid");
@@ -61,7 +73,70 @@ int rfc1035NameUnpack(const char *buf, size_t sz, unsigned int *off, unsigned sh
 }
 #endif
 
-#ifdef M_QUERYUNPACK
+/* -DM_LIGHT (target message_body): light contract stubs of QueryUnpack / RRUnpack.  Same requires (ASSERTED), the *off / return
+ * value part of the proved postcondition (spec_query_post / spec_rr_post) ASSUMED, but the 256-byte name arrays of *query / *RR
+ * are NOT havocked and no byte-level struct copy is made (that is what cbmc's array post-processing choked on).  Only the
+ * scalar members are given arbitrary values; RR->rdata becomes NULL (refused) or a fresh block (accepted).  Ghost counters
+ * record the calls so that the harness can state MessageUnpack's own counting obligations. */
+#ifdef M_LIGHT
+unsigned cv_q_calls, cv_q_ok, cv_rr_calls, cv_rr_ok;      /* ghosts (zero at harness start) */
+const void *cv_q_last, *cv_rr_last;                       /* where the last call was asked to write */
+unsigned cv_off_max;                                      /* largest *off handed back on success */
+#endif
+
+#ifdef M_XCALLOC_SPLIT
+/* cbmc 6.11 with --unwinding-assertions reports every call of a body-less function as a failed "no body for callee" check, so
+ * the targets that unwind with assertions get explicit bodies: an uninitialised local is an arbitrary value in cbmc. */
+unsigned int cv_nondet_uint(void) { unsigned int x; return x; }
+unsigned short cv_nondet_ushort(void) { unsigned short x; return x; }
+int cv_nondet_int(void) { int x; return x; }
+size_t cv_nondet_size(void) { size_t x; return x; }
+
+/* xcalloc as called from rfc1035.c in target message_body (cv_pre.h renames it there): the same assumed contract as
+ * cv/stubs/xalloc.c (zeroed block of exactly n*sz bytes, never NULL), but written as a case split over n = 1..8 so that every
+ * block has a CONSTANT size for cbmc (an array of symbolic size that is written and then read at symbolic indices is what
+ * cbmc's array post-processing does not get through).  A count outside 1..8 is reported as "model:" (undecided), not ignored. */
+void *calloc(size_t, size_t);
+void *cv_xcalloc_split(size_t n, size_t sz)
+{
+    void *p = 0;
+    if (n == 1) p = calloc(1, sz);
+    else if (n == 2) p = calloc(2, sz);
+    else if (n == 3) p = calloc(3, sz);
+    else if (n == 4) p = calloc(4, sz);
+    else if (n == 5) p = calloc(5, sz);
+    else if (n == 6) p = calloc(6, sz);
+    else if (n == 7) p = calloc(7, sz);
+    else if (n == 8) p = calloc(8, sz);
+    else __CPROVER_assert(0, "model: xcalloc called with a count outside 1..8 (the target's ANCOUNT bound must keep it inside)");
+    __CPROVER_assume(p != 0);
+    return p;
+}
+#endif
+
+#if defined(M_QUERYUNPACK) && defined(M_LIGHT)
+int rfc1035QueryUnpack(const char *buf, size_t sz, unsigned int *off, rfc1035_query *query)
+{
+    __CPROVER_assert(1 <= sz && sz <= N && __CPROVER_r_ok(buf, sz), "QueryUnpack requires: 1 <= sz <= N and buf[0,sz) readable");
+    __CPROVER_assert(__CPROVER_rw_ok(off, sizeof(unsigned int)), "QueryUnpack requires: off valid");
+    __CPROVER_assert(__CPROVER_w_ok(query, sizeof(*query)), "QueryUnpack requires: query writable");
+    __CPROVER_assert(!__CPROVER_same_object(query, buf) && !__CPROVER_same_object(query, off) && !__CPROVER_same_object(off, buf),
+                     "QueryUnpack requires: buf, off, query are separate objects");
+    unsigned int off0 = *off, any_off;      /* uninitialised locals = arbitrary values */
+    unsigned short any_t, any_c;
+    int r;
+    __CPROVER_assert(off0 <= sz, "MessageUnpack lemma: the offset handed to the question decoder does not exceed the datagram size");
+    *off = any_off;
+    query->qtype = any_t;
+    query->qclass = any_c;
+    __CPROVER_assume(r == 0 || r == 1);
+    __CPROVER_assume(r != 0 || (*off <= sz && *off >= off0 + 5));       /* spec_query_post, the *off part */
+    cv_q_calls++;
+    cv_q_last = query;
+    if (r == 0) { cv_q_ok++; if (*off > cv_off_max) cv_off_max = *off; }
+    return r;
+}
+#elif defined(M_QUERYUNPACK)
 int rfc1035QueryUnpack(const char *buf, size_t sz, unsigned int *off, rfc1035_query *query)
 {
     __CPROVER_assert(1 <= sz && sz <= N && __CPROVER_r_ok(buf, sz), "QueryUnpack requires: 1 <= sz <= N and buf[0,sz) readable");
@@ -79,7 +154,27 @@ int rfc1035QueryUnpack(const char *buf, size_t sz, unsigned int *off, rfc1035_qu
 }
 #endif
 
-#ifdef M_RRUNPACK
+#if defined(M_RRUNPACK) && defined(M_LIGHT)
+int rfc1035RRUnpack(const char *buf, size_t sz, unsigned int *off, rfc1035_rr *RR)
+{
+    __CPROVER_assert(1 <= sz && sz <= N && __CPROVER_r_ok(buf, sz), "RRUnpack requires: 1 <= sz <= N and buf[0,sz) readable");
+    __CPROVER_assert(__CPROVER_rw_ok(off, sizeof(unsigned int)), "RRUnpack requires: off valid");
+    __CPROVER_assert(__CPROVER_w_ok(RR, sizeof(*RR)), "RRUnpack requires: RR writable");
+    __CPROVER_assert(!__CPROVER_same_object(RR, buf) && !__CPROVER_same_object(RR, off) && !__CPROVER_same_object(off, buf),
+                     "RRUnpack requires: buf, off, RR are separate objects");
+    unsigned int off0 = *off, any_off;      /* uninitialised locals = arbitrary values */
+    int r;
+    __CPROVER_assert(off0 < sz, "MessageUnpack lemma: the offset handed to the record decoder lies inside the datagram");
+    *off = any_off;
+    __CPROVER_assume(r == 0 || r == 1);
+    __CPROVER_assume(r != 0 || (*off <= sz && *off >= off0 + 11));      /* spec_rr_post, the *off part */
+    RR->rdata = r == 0 ? (char *)xmalloc(1) : (char *)0;               /* accepted: a block the caller must free; refused: none */
+    cv_rr_calls++;
+    cv_rr_last = RR;
+    if (r == 0) { cv_rr_ok++; if (*off > cv_off_max) cv_off_max = *off; }
+    return r;
+}
+#elif defined(M_RRUNPACK)
 int rfc1035RRUnpack(const char *buf, size_t sz, unsigned int *off, rfc1035_rr *RR)
 {
     __CPROVER_assert(1 <= sz && sz <= N && __CPROVER_r_ok(buf, sz), "RRUnpack requires: 1 <= sz <= N and buf[0,sz) readable");
@@ -117,5 +212,66 @@ void rfc1035RRDestroy(rfc1035_rr **rr, int n)
     }
     free_const(*rr);
     *rr = NULL;
+}
+#endif
+
+#ifdef M_STRSTUBS
+/* ---- assumed models for the packing side (round-trip targets) ---- */
+#include <sys/types.h>
+/* strtok(3), C standard 7.24.5.8, for the only delimiter set the file uses ("."): skips leading delimiters, returns the token,
+ * overwrites the delimiter that ends it with NUL and remembers the position behind it.  Any other delimiter string = "stub:". */
+static char *cv_strtok_save;
+char *strtok(char *s, const char *delim)
+{
+    __CPROVER_assert(delim != 0 && delim[0] == '.' && delim[1] == 0, "stub: strtok is modelled for the delimiter set \".\" only");
+    if (s == 0)
+        s = cv_strtok_save;
+    if (s == 0)
+        return 0;
+    while (*s == '.')
+        s++;
+    if (*s == 0) {
+        cv_strtok_save = 0;
+        return 0;
+    }
+    char *tok = s;
+    while (*s != 0 && *s != '.')
+        s++;
+    if (*s != 0) {
+        *s = 0;
+        cv_strtok_save = s + 1;
+    } else
+        cv_strtok_save = 0;
+    return tok;
+}
+/* memcpy as a byte loop (C standard semantics; every byte access is pointer-checked): cbmc's own model of a symbolic-length
+ * memcpy leaves an array-copy constraint that the propositional back end does not get through for these targets */
+void *memcpy(void *dst, const void *src, size_t n)
+{
+    for (size_t k = 0; k < n; k++)
+        ((char *)dst)[k] = ((const char *)src)[k];
+    return dst;
+}
+/* compat/xstring.cc xstrdup: exits on NULL (asserted here), otherwise a fresh copy of the string; never NULL.
+ * DEVIATION (listed under trusted): the block has the constant size L+1 >= strlen(s)+1 instead of exactly strlen(s)+1 (a block
+ * of symbolic size that is written and read at symbolic offsets is what cbmc does not get through), so a read of the copy
+ * behind its NUL but inside L+1 bytes would not be flagged in the round-trip targets.  Longer strings: "model:" (undecided). */
+char *xstrdup(const char *s)
+{
+    __CPROVER_assert(s != 0, "xstrdup requires: non-NULL string");
+    size_t n = 0;
+    while (s[n] != 0)
+        n++;
+    __CPROVER_assert(n <= L, "model: xstrdup of a string longer than L bytes (the target's name bound must keep it shorter)");
+    char *p = xmalloc(L + 1);
+    for (size_t k = 0; k <= n; k++)
+        p[k] = s[k];
+    return p;
+}
+/* src/dns/rfc2671.cc is not compiled: the round-trip targets build queries without the EDNS OPT record (edns_sz <= 0) */
+int rfc2671RROptPack(char *buf, size_t sz, ssize_t edns_sz)
+{
+    __CPROVER_assert(0, "stub: rfc2671RROptPack (EDNS OPT record) is not modelled");
+    return 0;
 }
 #endif
